@@ -316,6 +316,9 @@ def mon_values(ctx):
         if name in VALUE_OPS and kind_of(x) == "prop":
             i = ctx.U.index(x)
             pre, post = ctx.pre["objs"][i], ctx.post["objs"][i]
+            if ctx.raised and name == "reassign_values":
+                return ("values.normal-form", "p.values = p.values raised %s: %s" %
+                        (ctx.outcome[1], ctx.outcome[2]))
             if ctx.raised:
                 exc = ctx.outcome[1]
                 if exc != "ValueError" and exc not in _OK_NONCONV.get(name, ()):
